@@ -744,7 +744,7 @@ func init() {
 		Kind    string `json:"kind"`
 		MaxIdle int    `json:"max_idle"`
 	}
-	vh.AddPart("C20", "pool-interleavings", "sim", vh.Opts{Shards: 8, TimeoutS: 400},
+	vh.AddPart("C20", "pool-interleavings", "sim", vh.Opts{NoConfirm: true, Shards: 8, TimeoutS: 400},
 		func(e *vh.Env) []c20Sched {
 			var cs []c20Sched
 			for _, k := range []string{"put-vs-shutdown", "cleanup-vs-get", "cleanup-vs-put", "get-vs-get"} {
